@@ -76,10 +76,19 @@ Theorem C07_dOps_stereo : forall a, 1 <= at_channels a <= 2 ->
 Proof. exact dops_strict_stereo. Qed.
 Print Assumptions C07_dOps_stereo.
 
-(* recorded finding KF-C07-1: the fragmented av1C is not a valid record at all *)
-Theorem C07_fragmented_av1C_refuted : forall c, strict_av1c (payload_of (build_av1c_fmp4 c)) = None.
-Proof. exact av1c_fmp4_refuted. Qed.
-Print Assumptions C07_fragmented_av1C_refuted.
+From Muxide Require Export Proofs.InitHeaderProofs.
+(* the fragmented av1C carries the sequence header OBU and the fields parsed from the supplied
+   sequence header
+   (formerly refuted: finding KF-C19-6 / KF-C07-1, repaired in muxide by commit 48ef1ef) *)
+Theorem C07_fragmented_av1C_carries_parsed_fields : forall c a,
+  extract_av1_config (match fc_av1 c with Some s => s | None => [] end) = Some a ->
+  strict_av1c (payload_of (build_av1c_fmp4 c)) =
+    Some {| a1_profile := av1_seq_profile a; a1_level := av1_seq_level_idx a; a1_tier := av1_seq_tier a;
+            a1_high_bitdepth := av1_high_bitdepth a; a1_twelve_bit := av1_twelve_bit a; a1_mono := av1_monochrome a;
+            a1_sx := av1_subsampling_x a; a1_sy := av1_subsampling_y a; a1_csp := av1_chroma_sample_position a;
+            a1_obus := av1_sequence_header a |}.
+Proof. exact fragmented_av1c_strict_parsed. Qed.
+Print Assumptions C07_fragmented_av1C_carries_parsed_fields.
 
 (* AV1: every conformant (valid, non-monochrome) sequence header - all branches of the header
    syntax of AV1 5.5, any operating points, timing / decoder-model info, colour configuration -
@@ -181,3 +190,57 @@ Theorem C07_av1_parsed_fields_fit : forall d c, extract_av1_config d = Some c ->
   av1_seq_profile c < 8 /\ av1_seq_level_idx c < 32 /\ av1_seq_tier c < 2 /\ av1_chroma_sample_position c < 4.
 Proof. exact extract_av1_config_fields_fit. Qed.
 Print Assumptions C07_av1_parsed_fields_fit.
+
+(* FRAGMENTED muxer: the C07 decision on the sample entry the reader finds in the init segment.
+   H.264: avcC carries the configured SPS / PPS; H.265: hvcC carries the configured VPS / SPS / PPS;
+   AV1: av1C carries the sequence header OBU and fields parsed from the configured header
+   (H.265 / AV1 formerly refuted: finding KF-C19-6 / KF-C07-1, repaired in muxide by commit 48ef1ef) *)
+From Muxide Require Export Model.Api Spec.Reader Spec.Checks Proofs.InitHeaderProofs.
+Theorem C07_init_segment_carries_stream_configuration_h264 : forall c d,
+  fc_vps c = None -> fc_av1 c = None -> fc_vp9 c = None ->
+  fc_width c < 65536 -> fc_height c < 65536 ->
+  len (fc_sps c) < 65536 -> len (fc_pps c) < 65536 ->
+  first_unit (fun b => b mod 32 =? 7) d = Some (fc_sps c) ->
+  first_unit (fun b => b mod 32 =? 8) d = Some (fc_pps c) ->
+  match read_tracks (init_segment_of (fmuxer_new c)) with
+  | Some (_, trs) =>
+      match track_of HV trs with
+      | Some tr => check_video_entry H264 (fc_width c) (fc_height c) (Some d) (tr_entry tr)
+      | None => false end
+  | None => false
+  end = true.
+Proof. exact init_segment_carries_stream_configuration_h264. Qed.
+Print Assumptions C07_init_segment_carries_stream_configuration_h264.
+
+Theorem C07_init_segment_carries_stream_configuration_h265 : forall c v d,
+  fc_av1 c = None -> fc_vp9 c = None -> fc_vps c = Some v ->
+  fc_width c < 65536 -> fc_height c < 65536 ->
+  len v < 65536 -> len (fc_sps c) < 65536 -> len (fc_pps c) < 65536 ->
+  first_unit (fun b => (b / 2) mod 64 =? 32) d = Some v ->
+  first_unit (fun b => (b / 2) mod 64 =? 33) d = Some (fc_sps c) ->
+  first_unit (fun b => (b / 2) mod 64 =? 34) d = Some (fc_pps c) ->
+  match read_tracks (init_segment_of (fmuxer_new c)) with
+  | Some (_, trs) =>
+      match track_of HV trs with
+      | Some tr => check_video_entry H265 (fc_width c) (fc_height c) (Some d) (tr_entry tr)
+      | None => false end
+  | None => false
+  end = true.
+Proof. exact init_segment_carries_stream_configuration_h265. Qed.
+Print Assumptions C07_init_segment_carries_stream_configuration_h265.
+
+Theorem C07_init_segment_carries_stream_configuration_av1 : forall c s a d,
+  fc_av1 c = Some s ->
+  fc_width c < 65536 -> fc_height c < 65536 ->
+  623 + len s < 4294967296 ->
+  extract_av1_config s = Some a ->
+  extract_av1_config d = Some a ->
+  match read_tracks (init_segment_of (fmuxer_new c)) with
+  | Some (_, trs) =>
+      match track_of HV trs with
+      | Some tr => check_video_entry Av1 (fc_width c) (fc_height c) (Some d) (tr_entry tr)
+      | None => false end
+  | None => false
+  end = true.
+Proof. exact init_segment_carries_stream_configuration_av1. Qed.
+Print Assumptions C07_init_segment_carries_stream_configuration_av1.
